@@ -56,6 +56,8 @@ class CacheResolver:
         f_def, st_def, v_def = defs[0]
         if isinstance(v_def, (ast.Name, ast.Constant)):
             return None  # plain storage of a parameter / constant is not a cache
+        if key is None and isinstance(v_def, (ast.Dict, ast.List, ast.Tuple, ast.Set, ast.Lambda, ast.ListComp, ast.DictComp)):
+            return None  # a table of callables / a container is not a cached quantity
         if key is not None:
             if not isinstance(v_def, ast.Dict):
                 return None
@@ -118,7 +120,8 @@ class CacheResolver:
                             effect, f"{attr}<-{src}")
                 # F2: plain public attribute, cache computed only at construction
                 setter = self.prog.lookup_setter(self.ci, src)
-                is_plain = setter is None and not src.startswith("_")
+                meth = self.prog.lookup_method(self.ci, src)
+                is_plain = setter is None and not src.startswith("_") and (meth is None or meth.kind == "property") and bool(self.assigns.get(src))
                 if is_plain and f_def.name == "__init__":
                     L.violation(rule, f"{f_def.qualname}:construction-time-{attr}", where_def,
                                 f"`self.{attr}` is computed once in the constructor from `{src}`, a plain public attribute that can be re-assigned on the object afterwards; {consumer} reads the cached value, other code reads `self.{src}` live — the two disagree after a re-assignment",
